@@ -74,6 +74,19 @@ PeerEdgeVector(grp, k) ==
        Step("dh_shared", "C09", FALSE, [grp |-> grp, x |-> Var("x", 0), peer |-> Ref(1, "pub")],
             [panic |-> FALSE, shared |-> SharedT(grp, Var("X", 0), PubT(grp, Var("x", 0)))]) >>)
 
+\* ONE key object through several key exchanges (the first answer was INVALID_KE_PAYLOAD or a COOKIE request: same object, the other
+\* group or the same group again): every exchange draws a NEW exponent from the source -- 256 octets are taken each time, the public
+\* value differs from the earlier ones, the shared secret is the peer's exponent applied to THIS call's public value
+RetryVector(k) ==
+  LET ga == IF k % 2 = 0 THEN 2 ELSE 14
+      gb == IF k % 4 < 2 THEN 14 ELSE 2
+      rnd(q) == [mode |-> "det", seed |-> Seed + 95 + 7 * k + q]
+      X == ExpClass(2, 10)
+      st(q, gg) == Step("dh_calc", "C09", FALSE, [obj |-> "K", grp |-> gg, peer |-> PubT(gg, X), rand |-> rnd(q)],
+                       [panic |-> FALSE, err |-> FALSE, ndelivered |-> [oneof |-> << 256, 512, 768, 1024 >>], repeat |-> FALSE,
+                        shared |-> SharedT(gg, X, RefT(q, "pub", DhLen(gg)))]) IN
+  VectorD("dh_retry", << >>, << st(1, ga), st(2, gb), st(3, ga), st(4, gb) >>)
+
 \* the group as it is reached through a negotiated proposal (transform type 4, id 2 / 14 -> NewIKESAKey): the responder's public value
 \* has the group's length and its keys are those of the shared secret computed with the group's prime
 PropGroupVector(grp, k) ==
@@ -130,8 +143,9 @@ Next == \/ stage = 0 /\ stage' = 1 /\ g' \in {2, 14} /\ xi' \in 1..NExp /\ yi' =
         \/ stage = 0 /\ stage' = 2 /\ g' \in {2, 14} /\ xi' \in 100..103 /\ yi' = 0
         \/ stage = 0 /\ stage' = 2 /\ g' \in {2, 14} /\ xi' \in 200..202 /\ yi' = 0
         \/ stage = 0 /\ stage' = 2 /\ g' \in {2, 14} /\ xi' \in 300..303 /\ yi' = 0
+        \/ stage = 0 /\ stage' = 2 /\ g' = 2 /\ xi' \in 400..403 /\ yi' = 0
         \/ stage = 1 /\ stage' = 2 /\ yi' \in 1..NPeer /\ UNCHANGED << g, xi >>
         \/ stage = 2 /\ UNCHANGED << stage, g, xi, yi >>
-Emit == stage = 2 => PrintT(ToJson(IF g = 0 THEN RandVector(xi) ELSE IF xi >= 300 THEN PeerEdgeVector(g, xi - 300) ELSE IF xi >= 200 THEN PropGroupVector(g, xi - 200) ELSE IF xi >= 100 THEN LongPeerVector(g, xi - 100) ELSE PairVector(g, xi, yi)))
+Emit == stage = 2 => PrintT(ToJson(IF g = 0 THEN RandVector(xi) ELSE IF xi >= 400 THEN RetryVector(xi - 400) ELSE IF xi >= 300 THEN PeerEdgeVector(g, xi - 300) ELSE IF xi >= 200 THEN PropGroupVector(g, xi - 200) ELSE IF xi >= 100 THEN LongPeerVector(g, xi - 100) ELSE PairVector(g, xi, yi)))
 Sound == TRUE
 =============================================================================
